@@ -258,10 +258,17 @@ func (m *Migrator) migrateSwamp(folderPath string) {
 	// Step 0: Load swamp name from meta file
 	swampName, err := m.loadSwampNameFromMeta(folderPath)
 	if err != nil {
+		if !errors.Is(err, os.ErrNotExist) {
+			// The meta file exists but cannot be read or decoded: migrating now
+			// would drop the swamp name (and DeleteOld would delete the only
+			// place it is stored). Leave the swamp for manual inspection.
+			m.recordFailure(folderPath, err.Error(), "load")
+			return
+		}
 		slog.Warn("Could not load swamp name from meta file",
 			"path", folderPath,
 			"error", err)
-		// Continue anyway - swamp name is optional for basic functionality
+		// No meta file at all - there is no name to carry over
 	}
 
 	// Step 1: Load V1 data (with deduplication)
